@@ -24,6 +24,9 @@ def KV.val (kv : KV) (k : String) : Option V := (kv.get k).bind V.parse
 def parseVs (s : String) : Option (List V) :=
   if s == "-" then some [] else (s.splitOn ",").mapM V.parse
 def KV.vals (kv : KV) (k : String) : Option (List V) := (kv.get k).bind parseVs
+/-- `none` or a value -/
+def KV.optVal (kv : KV) (k : String) : Option (Option V) :=
+  (kv.get k).bind (fun s => if s == "none" then some none else (V.parse s).map some)
 
 /-- `new`-line parameters → configuration -/
 partial def mkCfg (kind : String) (kv : KV) : Option (Cfg V) :=
@@ -365,6 +368,14 @@ def mkInjected (kind : String) (kv : KV) : Option (St V) :=
     pure (.debounce (← kv.nat "thr") (← kv.val "pred") (← kv.vals "out") (← kv.nat "count"))
   | "schmitt" => do
     pure (.schmitt (← kv.val "low") (← kv.val "high") (← kv.vals "out") ((kv.get "on") == some "true"))
+  | "kalman" => do
+    pure (.kalman { r := ← kv.val "r", q := ← kv.val "q", a := ← kv.val "a", b := ← kv.val "b", c := ← kv.val "c" }
+      { cov := ← kv.val "cov", value := ← kv.optVal "value" })
+  | "alphabeta" => do
+    pure (.alphaBeta (← kv.val "alpha") (← kv.val "beta") { velocity := ← kv.val "velocity", value := ← kv.optVal "value" })
+  | "ema" => do pure (.ema (← kv.val "w") (← kv.optVal "mean"))
+  | "integrate" => do pure (.integrate (← kv.val "value"))
+  | "differentiate" => do pure (.differentiate (← kv.optVal "value"))
   | "convolve" => do pure (.convolve (← kv.vals "c") ((kv.vals "taps").getD []))
   | "delay" => do pure (.delay (← kv.nat "N") ((kv.vals "taps").getD []))
   | _ => none
@@ -464,7 +475,7 @@ def stepFilterOp (d : DState) (op : String) (toks impl : List String) : Option (
     let st ← mkInjected kind kv
     let hist := ((kv.vals "hist").getD []).map (fun v => [v])
     let d := (d.put id { st := st, hist := hist, base := (kv.nat "count").getD 0,
-                         nospec := kind == "convolve" || kind == "delay" }).flag "inject"
+                         nospec := !(kind == "max" || kind == "min" || kind == "debounce" || kind == "schmitt") }).flag "inject"
     some (report d op { model := "ok", impl := implS })
   | "f" :: id :: args => do
     let id ← id.toNat?
@@ -484,7 +495,9 @@ def stepFilterOp (d : DState) (op : String) (toks impl : List String) : Option (
     | some (st', y) =>
       let clauses := match implOut with
         | some yi => if inst.nospec then [] else specFilter inst.base st' hist yi
-        | none => [clauseP "no-panic" false (renderOut (some y))]
+        -- a panic the model predicts (exact division by zero shows as `err` in the model's output) is agreement
+        | none => if y.any (fun v => match v with | .err => true | _ => false) then []
+                  else [clauseP "no-panic" false (renderOut (some y))]
       let d := (stepFlags inst.st st' hist).foldl DState.flag d
       let d := d.put id { inst with st := st', hist := hist, last := some implOut }
       some (report d op { model := renderOut (some y), impl := implS, clauses := clauses, kind := kindName inst.st })
@@ -497,7 +510,7 @@ def stepFilterOp (d : DState) (op : String) (toks impl : List String) : Option (
     let id ← id.toNat?
     let inst ← d.get id
     let m ← gutsField inst.st field
-    some (report d op { model := m, impl := implS, kind := kindName inst.st, clauses := specGuts inst field implS })
+    some (report d op { model := m, impl := implS, kind := kindName inst.st, clauses := if inst.nospec then [] else specGuts inst field implS })
   | ["cfg", id] => do
     let id ← id.toNat?
     let inst ← d.get id
